@@ -12,7 +12,7 @@ CHECKS = {
         "text": "Every (type, parameters, box) of a small scope is enumerated exhaustively and Hypothesis generates larger boxes; "
         "each filtering call is compared with the brute-force solution set of its input box (containment, no solution lost, "
         "INCONSISTENCY only on an empty solution set). Exploration is the right level: the quantifier is over all boxes, "
-        "the oracle is exact, and the small scope is complete for the off-by-one class of defects.",
+        "the oracle is exact, and the small scope is complete for the off-by-one class of defects. Fifteen scopes of 32767..65535 variables with analytically known solutions (alldifferent / gcc on pairwise disjoint domains, no_sub_cycle with one ground vertex) cover the 16-bit scratch arrays.",
         "note": _BOX_NOTE,
         "technique": "property-based testing: exhaustive small-scope enumeration + Hypothesis boxes vs brute-force solution set",
     },
@@ -107,14 +107,14 @@ CHECKS.update({
     },
     "C13": {
         "text": "Metamorphic: a model (generated, or a shipped one: queens, latin square, magic sequence, magic square, Schur, knapsack, circuit, Golomb) and a rewritten model (un-share domains + equalities, permute posting order, rename "
-        "variables/domains, post a constraint twice, add an always-true constraint, translate a translation-invariant model) are both solved by nucs; the solution multisets (mapped back) and the optima must be equal. No reference solver.",
+        "variables/domains, post a constraint twice, add an always-true constraint, translate a translation-invariant model, add fresh one-value variables through add_variable()/add_variables()) are both solved by nucs; the solution multisets (mapped back) and the optima must be equal. No reference solver.",
         "note": "Trusted: the rewrites of vlib/props/c13.py preserve meaning (each is a few lines, reviewed against the documented relations); Hypothesis. Cost-table heuristics are replaced by first/min for rewrites that re-index domains or values.",
         "technique": "property-based testing: metamorphic relations between a model and its meaning-preserving rewrites",
     },
     "C17": {
         "text": "Event counters kept by the interposers (constraint executions and their outcomes, executions narrowing no view, branching decisions, successful backtrack() calls, deepest level after a choice, BC / shaving passes, "
         "shaving attempts, times the search reached a solution) are compared with get_statistics() after enumeration, partial enumeration and optimisation runs; conservation laws for exhaustive BC enumeration; "
-        "multiprocessing totals = sum/max over the workers' final statistics under drawn delivery orders and snapshot delays.",
+        "multiprocessing totals = sum/max over the workers' final statistics under drawn delivery orders; every message must carry a snapshot (not the live array) of the worker's statistics, and after 1 and 2 delivered solutions of a multiprocessing enumeration get_statistics() must answer and count exactly the delivered solutions.",
         "note": _SOLVER_NOTE + " 'no change' means no view was narrowed (equivalently no shared-domain change); SOLVER_BACKTRACK_NB is compared with successful backtrack() calls of any caller, as documented.",
         "technique": "property-based testing: interposed event counts vs reported statistics, conservation laws",
     },
@@ -153,7 +153,7 @@ CHECKS.update({
     "C20": {
         "text": "Every shipped model at sizes within reach, symmetry breaking on/off, BC / shaving / Golomb's own algorithm, variable and value heuristics, 1..3 workers over split(): each returned vector is checked by a definition-level "
         "validator written from the problem statement; counts and optima are compared with the literature (queens, latin squares, magic squares, Golomb, QG5) or with independent brute force (magic sequences, Schur, BIBD, tournament "
-        "scheduling n=4, knapsack, circuits, TSP on generated matrices); symmetry variants must stay satisfiable exactly when the base problem is.",
+        "scheduling n=4, knapsack, circuits, TSP on generated matrices); symmetry variants must stay satisfiable exactly when the base problem is. The Golomb model is also enumerated (2..5 marks, counted against brute force, up to reflection with symmetry breaking, also as the union over split() parts) and asked for a first solution around the end of its table of known lengths (15..17 marks).",
         "note": "Trusted: the validators and brute-force counters of vlib/models.py, the cited literature values. Larger instances only with configurations that solve them in seconds; a slow case is 'inconclusive', never a violation.",
         "technique": "property-based testing: generated (model, instance, configuration) cases vs definition-level validators and independent counts",
     },
